@@ -39,14 +39,18 @@ ASSUMPTIONS = [
     "if the seam sees no request although the output is noisy (generator moved), the bundle falls back to seeded "
     "six-sigma variance sweeps and records seam_bypassed",
 ]
-N_RUNS = {"quick": 1600, "thorough": 20000}
+N_RUNS = {"quick": 1200, "thorough": 20000}
 NONTRIVIAL_OPS = 3
 INCLUDES = ["ase-only", "thermal-only", "shot-only", "ase-thermal", "ase-shot", "thermal-shot", "all"]
 
 
 def tasks(tier, master):
-    return [{"kind": "run", "i": i, "seed": core.derive_seed(master, PROPERTY, tier, i), "tier": tier}
-            for i in range(N_RUNS[tier])]
+    specs = [{"kind": "run", "i": i, "seed": core.derive_seed(master, PROPERTY, tier, i), "tier": tier}
+             for i in range(N_RUNS[tier])]
+    for j in range(2 if tier == "quick" else 12):
+        specs.append({"kind": "long", "i": 900000 + j, "seed": core.derive_seed(master, PROPERTY, "long", j),
+                      "n": (1 << 22) + 4096 * (j + 1) + j})
+    return specs
 
 
 def _case(s, rng):
@@ -57,7 +61,8 @@ def gen_field(rng):
     return {"n": rng.choice([32, 64, 100, 257, 512, 1000, 2048, 4096]),
             "field": rng.choice(["cw", "cw", "tone", "random", "nrz"]),
             "npol": rng.choice([1, 2]), "innoise": rng.choice([None, "complex", "complex", "real"]),
-            "P": 10 ** rng.uniform(-5, -1), "nlevel": 10 ** rng.uniform(-3, -0.5), "inseed": rng.getrandbits(32)}
+            "P": 10 ** rng.uniform(-5, -1), "nlevel": 10 ** rng.uniform(-6, -0.5), "inseed": rng.getrandbits(32),
+            "yzero": rng.random() < 0.15}
 
 
 def generate(seed, tier):
@@ -128,6 +133,8 @@ def build_field(op, fs):
         else:
             x = A * (rs.randn(n) + 1j * rs.randn(n)) / np.sqrt(2)
         rows.append(x * (1.0 if p == 0 else rs.uniform(0.2, 1.0)))
+    if npol == 2 and op.get("yzero"):
+        rows[1] = np.zeros(n, dtype=complex)      # x-only two-polarisation record (e.g. behind an x-polarised MZM)
     sig = rows[0] if npol == 1 else np.vstack(rows)
     noise = None
     if op["innoise"]:
@@ -471,7 +478,45 @@ class Bench:
         raise Violation("C09/args", f"invalid call {w} was accepted", f"args/{w}")
 
 
+def _long(spec, rec):
+    """A record longer than 2^22 samples: the signal part must still be one low-pass filtering of the whole record."""
+    rng = random.Random(spec["seed"])
+    b = Bench(rec)
+    try:
+        common.apply_gv({"sps": 16, "R": 10e9})
+        b.pristine.gv({"sps": 16, "R": 10e9})
+        op = {"op": "pd", "n": spec["n"], "field": "random", "npol": rng.choice([1, 2]), "innoise": None, "P": 1e-3,
+              "nlevel": 0.01, "inseed": rng.getrandbits(32), "r": 0.9, "T": 300.0, "R_load": 50.0,
+              "BWf": rng.uniform(0.05, 0.3), "BWabs": None, "iso": False, "i_dark": 1e-8, "Fn": 0.0,
+              "include": "thermal-shot", "seed": rng.getrandbits(31), "extras": []}
+        fs = float(b.gv.fs)
+        sig, _ = build_field(op, fs)
+        x = b._mk(sig, None)
+        with ScriptedRNG("zero"):
+            y0 = b._pd(x, op)
+        Es = sig if sig.ndim == 2 else sig[None, :]
+        ref = b._lpf_ref(op["r"] * np.sum(np.abs(Es) ** 2, axis=0) * op["R_load"], b._bw(op), True)
+        s0 = np.asarray(y0.signal).real
+        if s0.shape != ref.shape or not np.allclose(s0, ref, rtol=1e-9, atol=1e-12 * np.max(np.abs(ref))):
+            j = int(np.argmax(np.abs(s0 - ref))) if s0.shape == ref.shape else -1
+            raise Violation("C09/square-law", f"PD on a {spec['n']}-sample record: signal part differs from "
+                                              f"LPF(R_load*r*sum|E|^2) at sample {j}", "signal/long")
+        rec.n_ops += 1
+        rec.ok_ops += 1
+        rec.probe("record longer than 2^22 samples")
+        rec.log("long", spec["n"], core.array_digest(s0)[:10])
+        rec.sig("long", op["npol"])
+    finally:
+        b.pristine.close()
+    rec.sim_s = b.clock.covered
+
+
 def execute(spec, rec, known):
+    if spec.get("kind") == "long":
+        with warnings.catch_warnings():
+            warnings.simplefilter("ignore")
+            _long(spec, rec)
+        return
     b = Bench(rec)
     try:
         core.run_ops(b, spec["ops"], rec, "C09/args", "C09/len")
